@@ -30,6 +30,35 @@ def _njobs(cores):
     return min((cores + 249) // 250, 1000)
 
 
+class _GatedDb:
+    """the real gear Database (over minisql) with one scheduling point per query, standing for the network round trip:
+    the n-th query waits until the harness opens gate n, so that overlapping calls can be resumed in a chosen order"""
+
+    def __init__(self, db):
+        self._db = db
+        self.gates = []
+
+    def new_round(self):
+        self.gates = []
+
+    async def _gated(self, method, sql, args, query_name):
+        import asyncio
+        f = asyncio.get_event_loop().create_future()
+        self.gates.append(f)
+        await f
+        async for row in getattr(self._db, method)(sql, args, query_name):
+            yield row
+
+    def execute_and_fetchall(self, sql, args=None, query_name=None):
+        return self._gated('execute_and_fetchall', sql, args, query_name)
+
+    def select_and_fetchall(self, sql, args=None, query_name=None):
+        return self._gated('select_and_fetchall', sql, args, query_name)
+
+    def __getattr__(self, name):
+        return getattr(self._db, name)
+
+
 # ---- exact rational water-filling (the property's reference; written independently of the scheduler's loop) -------------
 
 def _clamp(x, lo, hi):
@@ -75,15 +104,17 @@ class C11(Prop):
                   'cases show; Python float `int(free / n + 0.5)` is modelled by exact integer division (agrees for free < 2^52 / n: argued, '
                   'tested at half-integer boundaries, not proved); the demand query is executed by harness/minisql (a MySQL-subset interpreter), not by MySQL; '
                   'the Lean model starts from the per-user sums.')
-    budget = {'quick': 30000, 'thorough': 500000}
+    budget = {'quick': 25000, 'thorough': 400000}
     search_budget = {'quick': 20000, 'thorough': 300000}
     rule = ('case = (free cores, [(running, ready)] for 0..12 users, the users\' counters sharded over 1..16 tokens of user_inst_coll_resources '
             'with negative shards that sum to the totals, rows of other instance collections, users whose shards cancel to zero; the free cores are held by 1..6 real Instance workers of a real Pool, some oversubscribed '
-            '(negative free cores), some unhealthy (not counted)); values from small/tie-heavy pools, multiples of 250 mcpu and up to 2^40; '
+            '(negative free cores), some unhealthy (not counted); a quarter of the cases make 2-3 compute_fair_share calls on the one scheduler that overlap at the '
+            'query and are resumed in a random order, each with its own workers); values from small/tie-heavy pools, multiples of 250 mcpu and up to 2^40; '
             'free drawn from {<=0, 1..n, a random point of a random segment between breakpoints, half-integer rounding boundaries of the final '
             'division, total demand +-1, more than demand}; non-trivial = free > 0, >= 2 users and demand > free (the loop must stop part-way); '
             'distinct by full case')
-    trusted = ['harness/minisql executes the SQL text of the demand query (GROUP BY / HAVING / SUM / CAST / COALESCE) on generated rows of '
+    trusted = ['a scheduling point before each query (harness gate standing for the network round trip) orders overlapping calls',
+               'harness/minisql executes the SQL text of the demand query (GROUP BY / HAVING / SUM / CAST / COALESCE) on generated rows of '
                'user_inst_coll_resources; real gear.database.Database over harness/minisql/fakepool',
                'IEEE-754: int(free / n + 0.5) equals trunc((2*free + n) / (2n)) for the magnitudes used (<= 2^44)']
     assumptions = ['per user the token shards of user_inst_coll_resources sum to non-negative counters (C01), a user without jobs has no cores; '
@@ -104,8 +135,11 @@ class C11(Prop):
         from .. import minisql
         from ..minisql import fakepool
         self.mdb = minisql.from_repo(repo, _random.Random(0), lambda: 1.7e9)
-        self.loop = asyncio.new_event_loop()
-        self.db = self.loop.run_until_complete(fakepool.make_database(self.mdb))
+        from .. import aloop
+        self.sched = aloop.Sched()
+        self.loop = self.sched.loop
+        self.real_db = self.loop.run_until_complete(fakepool.make_database(self.mdb))
+        self.db = _GatedDb(self.real_db)
         # the real object graph the scheduler reads its free cores from: Pool (real __init__, which builds its real PoolScheduler),
         # real Instance objects added with the real Pool.add_instance (which decides who is healthy)
         from batch.driver.instance import Instance
@@ -137,25 +171,43 @@ class C11(Prop):
         def region_for(self, location):
             return 'us-central1'
 
-    def _pool(self, c):
+    def _pool(self):
         app = {'db': self.db, 'scheduler_state_changed': self.Notice(), self.client_key: None}
         pool = self.Pool(app, self.db, self._NoManager(), None, 'batch-worker-verif-', self.pool_config, None, self._NoTasks())
-        for k, (free, cores, state, failed) in enumerate(self._workers(c)):
-            inst = self.Instance(app, pool, f'w{k}', state, cores, free, 0, failed, k, '10.0.0.1', 0, 'us-central1-a', 'n1-standard-16', True,
-                                 self._Region())
+        return app, pool
+
+    def _set_workers(self, app, pool, workers, gen):
+        """the pool's workers change: the old ones leave through the real adjust_for_remove_instance, the new ones join through add_instance"""
+        for inst in list(pool.name_instance.values()):
+            pool.adjust_for_remove_instance(inst)
+            del pool.name_instance[inst.name]
+        for k, (free, cores, state, failed) in enumerate(workers):
+            inst = self.Instance(app, pool, f'w{gen}-{k}', state, cores, free, 0, failed, k, '10.0.0.1', 0, 'us-central1-a', 'n1-standard-16',
+                                 True, self._Region())
             pool.add_instance(inst)
-        return pool
 
     @staticmethod
-    def _workers(c):
-        """[free_cores_mcpu, cores_mcpu, state, failed_request_count]; a case without workers has one healthy worker holding `free`"""
-        if c.get('workers') is not None:
-            return [list(w) for w in c['workers']]
-        return [[c['free'], max(c['free'], 16000), 'active', 0]]
+    def _calls(c):
+        """the calls of compute_fair_share made on the one scheduler: [{'free': .., 'workers': ..}], and the order in which their
+        queries come back; a plain case is one call"""
+        if c.get('calls'):
+            calls = [dict(x) for x in c['calls']]
+            order = list(c.get('order') or range(len(calls)))
+        else:
+            calls = [{'free': c['free'], 'workers': c.get('workers')}]
+            order = [0]
+        return calls, order
 
-    def _free(self, c):
+    @staticmethod
+    def _workers(call):
+        """[free_cores_mcpu, cores_mcpu, state, failed_request_count]; a call without workers has one healthy worker holding `free`"""
+        if call.get('workers') is not None:
+            return [list(w) for w in call['workers']]
+        return [[call['free'], max(call['free'], 16000), 'active', 0]]
+
+    def _free(self, call):
         """the pool's free cores: sum over the healthy (active, at most one failed request) workers, negative workers included"""
-        return sum(w[0] for w in self._workers(c) if w[2] == 'active' and w[3] <= 1)
+        return sum(w[0] for w in self._workers(call) if w[2] == 'active' and w[3] <= 1)
 
     def extra_coverage(self):
         return {'implementation_reached_by': self.how}
@@ -195,38 +247,78 @@ class C11(Prop):
         self.mdb.execute('DELETE FROM user_inst_coll_resources')
         self.mdb.load_rows('user_inst_coll_resources', rows)
 
-        pool = self._pool(c)
-
-        async def go():
-            import asyncio
-            res = await pool.scheduler.compute_fair_share()
-            await asyncio.sleep(0)
-            return res
-        return self.loop.run_until_complete(go())
+        calls, order = self._calls(c)
+        app, pool = self._pool()
+        self.db.new_round()
+        tasks = []
+        for i, call in enumerate(calls):
+            # the call reads the workers' free cores, then blocks in its query (gate i)
+            self._set_workers(app, pool, self._workers(call), i)
+            tasks.append(self.loop.create_task(pool.scheduler.compute_fair_share()))
+            self.loop.settle()
+        for i in order:
+            if i < len(self.db.gates) and not self.db.gates[i].done():
+                self.db.gates[i].set_result(None)
+            self.loop.settle()
+        results = []
+        for t in tasks:
+            if not t.done():
+                t.cancel()
+                self.loop.settle()
+                results.append(RuntimeError('call did not finish'))
+            elif t.cancelled():
+                results.append(RuntimeError('call was cancelled'))
+            elif t.exception() is not None:
+                results.append(t.exception())
+            else:
+                results.append(t.result())
+        return results
 
     def impl(self, c):
-        res = self._real(c)
         n = len(c['users'])
-        if not n:
-            return ['none']
-        out = []
-        for i in range(n):
-            rec = res.get(f'u{i}')
-            out.append('0' if rec is None else repr(rec['allocated_cores_mcpu']))   # not listed = nothing allocated
-        extra = sorted(u for u in res if not (u[1:].isdigit() and int(u[1:]) < n) and res[u]['allocated_cores_mcpu'] != 0)
-        if extra:
-            out.append('allocated-to-users-without-jobs:' + ','.join(extra))
-        return [' '.join(out)]
+        lines = []
+        for res in self._real(c):
+            if isinstance(res, BaseException):
+                lines.append(f'exc {type(res).__name__}')
+                continue
+            if not n:
+                lines.append('none')
+                continue
+            out = []
+            for i in range(n):
+                rec = res.get(f'u{i}')
+                out.append('0' if rec is None else repr(rec['allocated_cores_mcpu']))   # not listed = nothing allocated
+            extra = sorted(u for u in res if not (u[1:].isdigit() and int(u[1:]) < n) and res[u]['allocated_cores_mcpu'] != 0)
+            if extra:
+                out.append('allocated-to-users-without-jobs:' + ','.join(extra))
+            lines.append(' '.join(out))
+        return lines
 
     def model_lines(self, c):
-        return [' '.join(map(str, [self._free(c)] + [x for rd in self._users(c) for x in rd]))]
+        users = [x for rd in self._users(c) for x in rd]
+        return [' '.join(map(str, [self._free(call)] + users)) for call in self._calls(c)[0]]
 
     # ---- the property, on the real output ------------------------------------------------------------
     def oracle(self, c, out):
         if out[0].startswith('IMPL-EXC'):
             return out[0]
+        calls, order = self._calls(c)
+        if len(out) != len(calls):
+            return f'{len(out)} results for {len(calls)} calls'
+        for k, (call, line) in enumerate(zip(calls, out)):
+            # every call must return what it would return alone: the allocation is a function of the demands and the free cores
+            m = self._oracle_one(c, self._free(call), line)
+            if m:
+                if len(calls) > 1:
+                    m = f'call {k} of {len(calls)} overlapping calls (queries answered in order {order}): ' + m
+                return m
+        return None
+
+    def _oracle_one(self, c, free, line):
+        out = [line]
+        if line.startswith('exc '):
+            return f'the call raised {line[4:]}'
         users = self._users(c)
-        free = self._free(c)
         if any(r < 0 or d < 0 for r, d in users):
             return None   # inconsistent counters: outside the property's domain
         if not users:
@@ -337,6 +429,16 @@ class C11(Prop):
                 c['rows'], c['other'] = self._shard(rng, users)
             if rng.random() < 0.75:
                 c['workers'] = self._gen_workers(rng, free)
+            if rng.random() < 0.25 and users:
+                # the scheduling loop and the autoscaler call the same scheduler: 2-3 calls overlapping at the query's await point,
+                # each with the pool's workers of its moment, the queries answered in a random order
+                calls = [{'free': free, 'workers': c.get('workers')}]
+                for _ in range(rng.choice([1, 1, 2])):
+                    f2 = free if rng.random() < 0.25 else self._gen_free(rng, [tuple(u) for u in users])[0]
+                    calls.append({'free': f2, 'workers': self._gen_workers(rng, f2) if rng.random() < 0.5 else None})
+                order = list(range(len(calls)))
+                rng.shuffle(order)
+                c['calls'], c['order'] = calls, order
             yield c
 
     @staticmethod
@@ -424,7 +526,8 @@ class C11(Prop):
 
     def classify(self, c, out):
         users = self._users(c)
-        free = self._free(c)
+        calls, order = self._calls(c)
+        free = self._free(calls[0])
         n = len(users)
         demand = sum(d for _, d in users)
         tags = [f'users={n if n <= 4 else "5-8" if n <= 8 else "9-12"}']
@@ -458,22 +561,26 @@ class C11(Prop):
             tags.append('negative-cores-shard')
         if c.get('other'):
             tags.append('rows-of-other-inst-colls')
-        ws = self._workers(c)
+        ws = [w for call in calls for w in self._workers(call)]
+        tags.append(f'calls={len(calls)}')
+        if len(calls) > 1:
+            tags.append('overlapping:answered-in-call-order' if order == sorted(order) else 'overlapping:answered-out-of-order')
         tags.append('workers=1' if len(ws) == 1 else 'workers>1')
         if any(w[0] < 0 and w[2] == 'active' and w[3] <= 1 for w in ws):
             tags.append('oversubscribed-worker(free<0)')
         if any(not (w[2] == 'active' and w[3] <= 1) for w in ws):
             tags.append('unhealthy-worker-present')
-        nontrivial = free > 0 and n >= 2 and demand > free
+        nontrivial = n >= 2 and any(0 < self._free(call) < demand for call in calls)
         return (json.dumps(c, sort_keys=True) if nontrivial else None, tags)
 
     def finding_key(self, c, msg):
-        return json.dumps({'free': self._free(c), 'users': sorted(map(list, self._users(c))), 'rows': c.get('rows'), 'other': c.get('other'),
-                           'workers': c.get('workers')}, sort_keys=True)
+        calls, order = self._calls(c)
+        return json.dumps({'calls': calls, 'order': order, 'users': sorted(map(list, self._users(c))), 'rows': c.get('rows'),
+                           'other': c.get('other')}, sort_keys=True)
 
     def shrink(self, c, fails):
-        cur = {'free': self._free(c), 'users': [list(u) for u in self._users(c)]}
-        if not fails(cur):
+        cur = {'free': self._free(self._calls(c)[0][0]), 'users': [list(u) for u in self._users(c)]}
+        if c.get('calls') and len(c['calls']) > 1 or not fails(cur):
             # the failure depends on how the counters are sharded: shrink users / rows, keep the shards
             return self._shrink_sharded(c, fails)
         cur['users'] = generic_shrink_list(cur['users'], lambda us: fails({'free': cur['free'], 'users': us}))
@@ -520,8 +627,26 @@ class C11(Prop):
         changed = True
         while changed:
             changed = False
+            if cur.get('calls') and len(cur['calls']) > 1:
+                calls, order = self._calls(cur)
+                for i in range(len(calls)):
+                    d = dict(cur, calls=calls[:i] + calls[i + 1:], order=[o - (o > i) for o in order if o != i])
+                    if fails(d):
+                        cur, changed = d, True
+                        break
+                if changed:
+                    continue
+                for i, call in enumerate(calls):       # one plain worker per call
+                    if call.get('workers') is not None:
+                        d = json.loads(json.dumps(cur))
+                        d['calls'][i] = {'free': self._free(call)}
+                        if fails(d):
+                            cur, changed = d, True
+                            break
+                if changed:
+                    continue
             ws = cur.get('workers')
-            if ws and len(ws) > 1:
+            if ws and len(ws) > 1 and not cur.get('calls'):
                 for i in range(len(ws)):
                     d = dict(cur, workers=ws[:i] + ws[i + 1:])
                     if fails(d):
